@@ -223,6 +223,43 @@ def run(ctx: Ctx, rs: RuleSet, tier: str):
             m.node.body) <= 2
     rs.check(ok, rule, m.qualname,
              f'returns self.{field}(*args, **kwargs)', ctx.loc(m, m.node))
+  # descriptor access binds both functions to (obj, objtype) anew each time
+  gt = ctx.func(f'{AC}.AutoConfig.__get__')
+  sp, op, tp = gt.params[0], gt.params[1], gt.params[2]
+  rets = [r for r in walk_function(gt.node) if isinstance(r, ast.Return)]
+
+  def _bound(e, field):
+    return (isinstance(e, ast.Call) and unparse(e.func) ==
+            f'{sp}.{field}.__get__' and [unparse(a) for a in e.args] == [op, tp])
+
+  def _fresh_binding(e, depth=0):
+    if isinstance(e, ast.Name) and depth < 2:
+      defs = roles.defs_of(gt, e.id)
+      return bool(defs) and all(_fresh_binding(d, depth + 1) for d in defs)
+    return (isinstance(e, ast.Call) and unparse(e.func) == 'AutoConfig' and
+            kwarg(e, 'func') is not None and _bound(kwarg(e, 'func'), 'func')
+            and kwarg(e, 'buildable_func') is not None and
+            _bound(kwarg(e, 'buildable_func'), 'buildable_func'))
+
+  stores_self = [n for n in walk_function(gt.node) if (
+      isinstance(n, ast.Call) and unparse(n.func).endswith('__setattr__') and
+      n.args and unparse(n.args[0]) == sp) or (
+          isinstance(n, (ast.Assign, ast.AugAssign)) and any(
+              unparse(t).startswith(f'{sp}.') or unparse(t).startswith(
+                  f'{sp}.__dict__') for t in (
+                      n.targets if isinstance(n, ast.Assign) else [n.target])))]
+  ok = bool(rets) and all(_fresh_binding(r.value) for r in rets) and (
+      not stores_self)
+  rs.check(ok, rule, gt.qualname,
+           'returns AutoConfig(func=self.func.__get__(obj, objtype), '
+           'buildable_func=self.buildable_func.__get__(obj, objtype), ...) '
+           'and keeps nothing on the descriptor' if ok else
+           'attribute access does not bind both functions to (obj, objtype) '
+           'afresh' + (f' (`{unparse(stores_self[0])[:50]}` stores a binding '
+                       'on the shared descriptor)' if stores_self else '') +
+           ': a classmethod reached through a subclass after its base class '
+           'is called with the class bound first, unlike the plain function',
+           ctx.loc(gt, gt.node))
   mk = ctx.func(f'{AC}.auto_config.make_auto_config')
   g = ctx.cfg(mk)
   fn = mk.params[0]
